@@ -46,6 +46,7 @@ __all__ = (
     "snake_case",
     "write_stderr",
     "fatal",
+    "escape_string_literal",
 )
 
 
@@ -326,6 +327,30 @@ class Color(Enum):
 def colored(text: str, color: Color) -> str:
     """Color given text."""
     return "\033[3%dm%s\033[0m" % (color.value, text)
+
+
+_string_literal_escapes = {
+    "\\": "\\\\",
+    '"': '\\"',
+    "\n": "\\n",
+    "\r": "\\r",
+    "\t": "\\t",
+}
+
+
+def escape_string_literal(s: str) -> str:
+    """Escapes given string to be placed between double quotes as a string literal.
+    The escape sequences used mean the same in C, Go and Python.
+    """
+    chars: List[str] = []
+    for ch in s:
+        if ch in _string_literal_escapes:
+            chars.append(_string_literal_escapes[ch])
+        elif ord(ch) < 0x20 or ord(ch) == 0x7F:
+            chars.append("\\{0:03o}".format(ord(ch)))
+        else:
+            chars.append(ch)
+    return "".join(chars)
 
 
 def keep_case(word: str) -> str:
